@@ -47,7 +47,7 @@ func init() {
 
 // Findings of the unchanged tree are printed as INFO lines until known_findings.json has
 // entries for their keys (the unit builder must not edit that file); flip to true then.
-const tpFindingsAsMonfail = false
+const tpFindingsAsMonfail = true
 
 // RFC 9000 section 18.2, RFC 9221, draft-ietf-quic-reliable-stream-reset, draft-ietf-quic-ack-frequency
 const (
